@@ -43,5 +43,9 @@ theorem C12_src_sock_vector_for_range (ws : WindSock α) (x : α) (hm : ws.maxDi
 
 theorem C12_src_sock_current_vector (ws : WindSock α) : Src.sock_current_vector ws = ws.vec := rfl
 
+/-- `Shot.winds` = `tuple(sorted(self._winds, key=…))` (matched structurally; `sorted` is stable): the key is the raw magnitude of the
+    until-distance — what the model's `sortWinds` / `insertWind` compare -/
+theorem C12_src_winds_sort_key (untilRaw : α) : Src.winds_sort_key untilRaw = untilRaw := rfl
+
 end
 end BC.Props.C12
